@@ -16,7 +16,10 @@ TRUSTED = [
 ]
 ASSUMPTIONS = ["coherent cost vectors; leaf syntenies non-empty with distinct families"]
 OPEN = [
-    'C03_statement (restricting to canonical labellings loses nothing); explored against the brute-force specification over every labelling',
+    "adequacy of the unordered oracle: Spec.optimum ranges over labellings between required and allowed content "
+    "(Spec.labelSpace); that every Spec.validSol .unordered solution is (up to order/duplicates of its label lists) "
+    "such a labelling is not yet a theorem (the ordered and plain analogues are: C02Spec, OptAdequacyPlain); "
+    "proved: C03_full_eq (returned cost = Spec.optimum for binary S), C03_exchange (canonical labellings lose nothing)",
 ]
 
 CORPUS = [
